@@ -322,3 +322,17 @@ def r13_7(run):
 
 
 RULES = [("R13.1", r13_1), ("R13.2", r13_2), ("R13.3", r13_3), ("R13.4", r13_4), ("R13.5", r13_5), ("R13.6", r13_6), ("R13.7", r13_7)]
+
+EXPLANATION += (' ' + '(R13.8, shared with C05 R5.8) every calculation of a time step rebinds every result table to a fresh all-NaN frame, so a step in which an '
+                'element gets no result logs NaN and not the value of the step before.')
+
+
+def r13_8(run):
+    """a logged step equals the stand-alone calculation: what a step reports for an element that takes no part in it (closed valve, out
+    of service) is NaN as in a fresh run, not the number of the preceding step -- init_results_element rebinds the table on every path
+    (shared with C05 R5.8)."""
+    from .c05 import r5_8
+    r5_8(run)
+
+
+RULES.append(("R13.8", r13_8))
